@@ -68,7 +68,9 @@ FAMILIES = {
         rule='forwarding chains/diamonds with slow downstream handlers, external awaits; every state after first completion is an observation point; '
              'non-trivial: an event completes and at least 5 labels follow'),
     'C09': dict(
-        gens=[('core', dict(p_parallel=0.4, p_readbus=0.12, p_parent=0.15, p_forward=0.2), 0.72), ('core', dict(p_parallel=0.3, p_forward=0.15, p_existing=0.05, p_raise=0.0), 0.2), ('backlog', dict(), 0.08)],
+        gens=[('core', dict(p_parallel=0.4, p_readbus=0.12, p_parent=0.15, p_forward=0.2), 0.57), ('core', dict(p_parallel=0.3, p_forward=0.15, p_existing=0.05, p_raise=0.0), 0.2), ('backlog', dict(), 0.08),
+              # nested awaits whose inner handlers fail or time out: attribution after an error inside the await window
+              ('core', dict(p_parallel=0.15, p_raise=0.25, p_timeout=0.3, proglen=(2, 6), p_readbus=0.1), 0.09), ('errnest', dict(), 0.06)],
         facets=CORE + ['lineage', 'path', 'eventbus', 'dispatch', 'capacity'],
         rule='parallel handlers dispatching at interleaved times, nested awaits, forwarding of roots and children, explicit parents, event_bus reads; '
              'non-trivial: a handler instance dispatches'),
@@ -158,7 +160,7 @@ def gen_backlog(rng, p_waitidle=0.0, **_):
     return sc
 
 
-GENS = {'core': gen.gen_core, 'backlog': gen_backlog, 'chain': gen.gen_chain, 'stop': gen.gen_stop, 'idle': gen.gen_idle, 'deep': gen.gen_deep, 'sibling': gen.gen_sibling, 'parraise': gen.gen_parraise, 'deepfwd': gen.gen_deepfwd, 'parshare': gen.gen_parshare, 'partimeout': gen.gen_partimeout, 'cycle': gen.gen_cycle}
+GENS = {'core': gen.gen_core, 'backlog': gen_backlog, 'chain': gen.gen_chain, 'stop': gen.gen_stop, 'idle': gen.gen_idle, 'deep': gen.gen_deep, 'sibling': gen.gen_sibling, 'parraise': gen.gen_parraise, 'deepfwd': gen.gen_deepfwd, 'parshare': gen.gen_parshare, 'partimeout': gen.gen_partimeout, 'cycle': gen.gen_cycle, 'errnest': gen.gen_errnest}
 
 
 def corpus(prop):
